@@ -72,6 +72,9 @@ def run_shard(spec):
         r.hvbar = rng.choice([0, 0x60, 0xFFFFFFE0, 0x5000])
         if cfg['have_security_ext']:
             r.scr.value = (rng.getrandbits(6) << 1) | ns        # EA FIQ IRQ FW AW
+            if mode == 'mon' and rng.random() < 0.5:
+                r.scr.ns = 1          # Monitor mode is Secure whatever SCR.NS says; an exception taken from it clears NS
+                desc['ns'] = 1
         if cfg['have_virt_ext']:
             r.hcr.tge = 1 if rng.random() < 0.3 else 0
             r.hcr.imo = rng.randrange(2)
